@@ -564,6 +564,60 @@ def make_wsgi(delta, nmax):
     return q
 
 
+class FailingFile(stubs_c17.FakeFile):
+    """a file that opens and seeks but whose first read() fails (EIO, stale handle)"""
+    def read(self, k=-1):
+        self.asked.append(k)
+        raise OSError(5, "Input/output error")
+
+
+def make_wsgi_readfail(nmax):
+    """the file can be opened but not read: whatever is answered, its Content-Range / Content-Length / delivered bytes
+    describe the same thing (a 206 for a slice that is not delivered is not an answer)"""
+    def q(n: int, A: str, B: str, ranged: bool):
+        set_zone("UTC")
+        assume(1 <= n <= nmax)
+        assume_digits(A, (0, 1))
+        assume_digits(B, (0, 1))
+        if not ranged:
+            assume(len(A) == 0 and len(B) == 0)
+        fs = stubs_c17.FakeFS({PATH: (n, float(MTIME_S), WSGI_DATA)})
+        real_open = fs.open
+
+        def failing_open(p, mode="r"):
+            f = real_open(p, mode)
+            f.__class__ = FailingFile
+            return f
+        fs.open = failing_open
+        fs.install()
+        env = {"REQUEST_METHOD": "GET", "PATH_INFO": "/c17/file", "SCRIPT_NAME": "", "SERVER_NAME": "h", "SERVER_PORT": "80",
+               "SERVER_PROTOCOL": "HTTP/1.1", "wsgi.url_scheme": "http", "wsgi.errors": stubs_c17.ErrorLog()}
+        if ranged:
+            env["HTTP_RANGE"] = "bytes=" + A + "-" + B
+        started = []
+        failed = None
+        try:
+            body = b"".join(Globals.app(env, lambda status, headers, exc_info=None: started.append((status, headers))))
+        except OSError as e:        # the read fails while the SERVER iterates the body: the server's business
+            failed, body = e, b""
+        if len(started) != 1:
+            return "start_response called %d times" % len(started)
+        status, headers = started[0]
+        hd = dict(headers)
+        if failed is not None:
+            cover("failed-while-streaming")
+            return None
+        cover("answered-" + status[:1] + "xx")
+        if "Content-Range" in hd and status[:3] != "206":
+            return "%s carries Content-Range %r (nothing of the file was delivered)" % (status, hd["Content-Range"])
+        if "Content-Length" in hd and hd["Content-Length"] != str(len(body)):
+            return "%s announces Content-Length %r and delivers %d bytes" % (status, hd["Content-Length"], len(body))
+        if status[:3] in ("200", "206") and body != b"":
+            return "%s delivers %r although the file cannot be read" % (status, body)
+        return None
+    return q
+
+
 # ---------------------------------------------------------------- query list
 L7 = (1, 2, 3, 4, 5, 6, 7)
 
@@ -664,6 +718,10 @@ def queries(tier):
             % (nw, "absent" if delta is None else "mtime%+ds" % delta, both),
             (2, 2) if delta is not None and delta >= 0 else (30, 160),
             ["304", "head"] if delta is not None and delta >= 0 else ["200", "206", "416", "head"], "wsgi")
+    add("wsgi-readfail/range", make_wsgi_readfail(nw),
+        "default app -> route -> static_file of a file (n in [1, %d]) that opens but whose first read() raises OSError, with and "
+        "without Range 'bytes=A-B' (A, B empty or one digit): the answer is self-consistent (no Content-Range without a 206, "
+        "Content-Length = bytes delivered)" % nw, (20, 100), ["answered-5xx"], "wsgi")
     # --- get_first_range alone: long digit strings, free text, unit near misses
     pl = (1, 2, 7) if not T else L7
     for tag, la, lb, cost in (("closed", pl, pl, (39, 195)), ("open", L7, (0,), (7, 7)), ("suffix", (0,), (0,) + L7, (12, 12))):
